@@ -60,6 +60,12 @@ def generate(rng, tier, idx):
         'zero_size': rng.random() < 0.2,
         'bad_name': rng.choice(['WHIRLPOOL', 'FOO', 'sha256', 'SHA-512', 'MD4X', 'BLAKE3']),
     }
+    if rng.random() < 0.12:
+        # many algorithms in one call (every combination of block sizes and digest lengths, up to all of them)
+        sc['hashlib'] = sorted(rng.sample(FIXED_HASHLIB, rng.randrange(4, len(FIXED_HASHLIB) + 1)))
+        if rng.random() < 0.3:
+            sc['hashlib'] = sorted(a for a in FIXED_HASHLIB if a.startswith(rng.choice(['sha3_', 'sha', 'blake', 's'])))
+        sc['hashes'] = sorted(rng.sample(G.SUPPORTED_HASHES, rng.randrange(4, len(G.SUPPORTED_HASHES) + 1)))
     if rng.random() < 0.25:
         # the requested list in arbitrary order and with a name given twice (`-H "SHA256 SHA256 SHA512"`)
         hs = list(sc['hashes'])
